@@ -274,7 +274,9 @@ impl Prop for C18 {
                                         if path == "module" {
                                             gamedig::games::eco::query_with_timeout(&ip, Some(port), &Some(ts)).map(|_| ()).map_err(|e| e.kind)
                                         } else {
-                                            gamedig::query_with_timeout_and_extra_settings(game, &ip, Some(port), Some(ts), None).map(|_| ()).map_err(|e| e.kind)
+                                            // (every second configuration also carries extra request settings, which the HTTP game converts too)
+                                            let extra = if n % 2 == 0 { Some(gamedig::protocols::types::ExtraRequestSettings::default().set_hostname("eco.example.org".into()).set_check_app_id(false)) } else { None };
+                                            gamedig::query_with_timeout_and_extra_settings(game, &ip, Some(port), Some(ts), extra).map(|_| ()).map_err(|e| e.kind)
                                         }
                                     });
                                     ctx.counters.evaluations += 1;
